@@ -159,6 +159,8 @@ class CPU:
         if ent is None:
             return None
         name, addend, attrs = ent
+        if "PLT" in attrs:
+            raise core.HarnessError(f"machsim cpu: PLT reference in a data operand of '{ins.text}'")
         if name not in self.symaddr:
             raise core.HarnessError(f"machsim cpu: no address for symbol {name}")
         return (self.symaddr[name] + addend) & self.mask
